@@ -11,6 +11,10 @@ CORPUS = ["testsuite/test.orc", "orc/orcfunctions.orc"] + sorted(
     os.path.relpath(f, vlib.REPO) for f in glob.glob(os.path.join(vlib.REPO, "examples", "*.orc")))
 
 
+# programs that exposed a defect and belong to no enumerated family (one per function, with the reason)
+EXTRA = os.path.join(os.path.dirname(os.path.dirname(os.path.abspath(__file__))), "corpus", "c01_extra.orc")
+
+
 def corpus_arg():
     return ":".join(os.path.join(vlib.REPO, f) for f in CORPUS if os.path.exists(os.path.join(vlib.REPO, f)))
 
@@ -21,11 +25,11 @@ def run(ctx):
     scratch = vlib.scratch_dir("C01")
     env = vlib.scrub_env(scratch=scratch)
     if tier == "quick":
-        levels, deadline, nsh = "L1,L2,L3,L4,L5,L6,LB", ctx["deadline"] or 420, 96
+        levels, deadline, nsh = "L1,L2,L3,L4,L5,L6,LB,LW", ctx["deadline"] or 420, 96
     else:
-        levels, deadline, nsh = "L1,L2,L3,L4,L5,L6,LB", ctx["deadline"] or 2400, 128
+        levels, deadline, nsh = "L1,L2,L3,L4,L5,L6,LB,LW", ctx["deadline"] or 2400, 128
     args = [["--levels", levels, "--tier", tier, "--targets", "avx,sse,mmx", "--classes", "int",
-             "--corpus", corpus_arg(), "--shard", i, "--nshards", nsh, "--deadline", int(deadline)] for i in range(nsh)]
+             "--corpus", corpus_arg() + ":" + EXTRA, "--shard", i, "--nshards", nsh, "--deadline", int(deadline)] for i in range(nsh)]
     res = vlib.run_shards(exe, args, env, timeout=deadline * 1.5 + 300, label="xprog")
     # the other flag sets of each target: every 64-bit feature subset (code identical to an already compared vector is skipped),
     # reduced input sweep.  The same leg is C11's second oracle; the statement of C01 quantifies over flag sets as well.
